@@ -1641,7 +1641,7 @@ impl UnifiedCommandExecutor {
                 handle_xack(&self.storage, db, &frames)
             }
             
-            ConsumerGroupCommand::XPending { key, group, range, consumer: _consumer } => {
+            ConsumerGroupCommand::XPending { key, group, range, consumer } => {
                 use crate::storage::commands::consumer_groups::handle_xpending;
                 let mut frames = vec![
                     RespFrame::from_string("XPENDING"),
@@ -1653,6 +1653,9 @@ impl UnifiedCommandExecutor {
                     frames.push(RespFrame::from_string(start));
                     frames.push(RespFrame::from_string(end));
                     frames.push(RespFrame::from_string(count.to_string()));
+                    if let Some(consumer) = consumer {
+                        frames.push(RespFrame::from_string(consumer));
+                    }
                 }
                 
                 handle_xpending(&self.storage, db, &frames)
